@@ -312,3 +312,122 @@ Proof.
     inv_bind H. destruct x as [e|r]; inversion H; subst. exact Ha. }
   eapply (exec_no_panic true); [eapply wrun2_good; eassumption|exact W|exact E].
 Qed.
+
+(* ================================================================== *)
+(* the Raft-level entry points, both invariants and both site lists at once *)
+Theorem step_safe2 rw r m :
+  NodeInv r -> LI rw r -> msg_wf2 (last_index (r_log r)) m -> snap_ok m ->
+  (forall r' c, step r m = Ok (r', c) -> NodeInv r' /\ LI rw r') /\
+  (forall s, step r m = Panic s -> ~ In s all_sites).
+Proof.
+  intros A B W S. split.
+  - intros r' c E. split; [exact (safe_ok_inv _ _ _ (step_safe r m A S) E)|].
+    eapply step_pres; [exact E|exact (proj1 W)|exact B].
+  - intros s E Hin. unfold all_sites in Hin. apply in_app_or in Hin. destruct Hin as [Hin|Hin].
+    + exact (safe_panic_inv _ _ _ (step_safe r m A S) E Hin).
+    + exact (nops_panic_inv _ _ (step_nops rw r m B W) E Hin).
+Qed.
+
+Theorem tick_safe2 rw r :
+  NodeInv r -> LI rw r -> room 1 r ->
+  (forall r' b, tick r = Ok (r', b) -> NodeInv r' /\ LI rw r') /\
+  (forall s, tick r = Panic s -> ~ In s all_sites).
+Proof.
+  intros A B Hr. split.
+  - intros r' b E. split; [exact (safe_ok_inv _ _ _ (tick_safe r A) E)|].
+    eapply tick_pres; eassumption.
+  - intros s E Hin. unfold all_sites in Hin. apply in_app_or in Hin. destruct Hin as [Hin|Hin].
+    + exact (safe_panic_inv _ _ _ (tick_safe r A) E Hin).
+    + exact (nops_panic_inv _ _ (tick_nops rw r B Hr) E Hin).
+Qed.
+
+(* definitions written out *)
+Lemma shape_sites_def_pin :
+  shape_sites =
+  [site_u_trunc_empty; site_u_slice_order; site_u_slice_bound; site_u_term_index;
+   site_l_last_term; site_l_append_range; site_l_slice_order; site_l_slice_bound;
+   site_l_slice_unavailable; site_l_next_entries; site_l_fuel; site_l_scan_empty;
+   site_snapshot_err; site_req_snap_term;
+   site_first_overflow; site_entries_last_overflow; site_entries_oob; site_entries_hi_underflow;
+   site_entries_slice_order; site_entries_slice_end; site_term_index].
+Proof. reflexivity. Qed.
+Lemma all_sites_def_pin : all_sites = local_sites ++ shape_sites.
+Proof. reflexivity. Qed.
+Lemma nops_def_pin {A} (x : Res A) : nops x <-> (forall s, x = Panic s -> ~ In s shape_sites).
+Proof.
+  split; [intros H s ->; exact H|]. intros H. destruct x as [a|s]; [exact I|apply H; reflexivity].
+Qed.
+Lemma append_wf2_def_pin li m :
+  append_wf2 li m <->
+  (contiguous_from (m_index m + 1) (m_entries m)
+   /\ m_index m + N.of_nat (length (m_entries m)) < u64_max)
+  /\ Forall (fun e => e_term e <> 0) (m_entries m) /\ (m_index m <= li \/ m_log_term m <> 0).
+Proof. reflexivity. Qed.
+Lemma msg_wf2_def_pin li m :
+  msg_wf2 li m <-> msg_wf li m /\ (m_type m = MsgAppend -> append_wf2 li m).
+Proof. reflexivity. Qed.
+Lemma op_wf2_def_pin n o :
+  op_wf2 n o <->
+  op_wf n o /\
+  match o with
+  | OStep m => (m_type m = MsgAppend -> append_wf2 (nlast n) m) /\ snap_ok m
+  | OApplyCC _ => 1 <= nlast n
+  | _ => True
+  end.
+Proof. reflexivity. Qed.
+Lemma NGood_def_pin rw n : NGood rw n <-> RnInv n /\ NLI rw n /\ CsiOK n.
+Proof. reflexivity. Qed.
+Lemma wrun2_iff n n' :
+  wrun2 n n' <-> (n' = n) \/ exists o n1 ot, op_wf2 n o /\ exec n o = Ok (n1, ot) /\ wrun2 n1 n'.
+Proof.
+  split.
+  - intros R. destruct R; [left; reflexivity|right; eauto 10].
+  - intros [-> |(o & n1 & ot & A & B & C0)]; [constructor|econstructor; eassumption].
+Qed.
+
+(* ================================================================== *)
+(* non-vacuity: the single-voter trace of M/RaftProofsRepInv.v (campaign, Ready, the
+   application's write, advance_append) is a wrun2; the invariants hold at its end and the
+   next tick succeeds *)
+Module ShapeSamples.
+  Import Samples RepInvSamples.
+
+  Lemma op_wf2_plain n o :
+    op_wf n o -> match o with OStep _ | OApplyCC _ => False | _ => True end -> op_wf2 n o.
+  Proof. intros W P. split; [exact W|]. destruct o; try exact I; contradiction. Qed.
+
+  Lemma ex_leader_trace2 : wrun2 node0 node3.
+  Proof.
+    eapply (wrun2_cons node0 OCampaign node1);
+      [apply op_wf2_plain; [vm_compute; reflexivity|exact I]|vm_compute; reflexivity|].
+    eapply (wrun2_cons node1 OReady (fst ready1));
+      [apply op_wf2_plain; exact I|vm_compute; reflexivity|].
+    eapply (wrun2_cons (fst ready1) (OSetStore store1) node2).
+    { apply op_wf2_plain; [|exact I]. apply SW_entries; [reflexivity|vm_compute; reflexivity]. }
+    { reflexivity. }
+    eapply (wrun2_cons node2 (OAdvanceAppend (snd ready1)) node3).
+    { apply op_wf2_plain; [|exact I]. split.
+      - split; [intros C; vm_compute in C; congruence|intros _; vm_compute; reflexivity].
+      - unfold persist_pre. vm_compute. intros C; discriminate. }
+    { vm_compute. reflexivity. }
+    constructor.
+  Qed.
+
+  Lemma shape_nonvacuous :
+    exists c st n0 n,
+      rn_new c st None [15; 15; 15; 15] = Ok (inr n0) /\ SInv st /\ trig_log st = false /\
+      c_applied c < u64_max /\ wrun2 n0 n /\ NGood true n /\ r_state (rn_raft n) = Leader /\
+      op_wf2 n OTick /\ exists n' b, exec n OTick = Ok (n', b).
+  Proof.
+    exists cfg, store0, node0, node3.
+    split; [exact node0_new|]. split; [exact store0_inv|]. split; [reflexivity|].
+    split; [vm_compute; reflexivity|]. split; [exact ex_leader_trace2|].
+    split.
+    { eapply wrun2_good; [exact ex_leader_trace2|].
+      split; [eapply rn_new_RnInv; exact node0_new|].
+      split; [exact (proj1 (rn_new_pres _ _ _ _ _ node0_new store0_inv eq_refl))|vm_compute; reflexivity]. }
+    split; [reflexivity|].
+    split; [apply op_wf2_plain; [vm_compute; reflexivity|exact I]|].
+    eexists. eexists. vm_compute. reflexivity.
+  Qed.
+End ShapeSamples.
